@@ -327,7 +327,7 @@ def run_impl(case):
     from pytezos.michelson.types.base import MichelsonType
     from harness import real_c03 as R
     script, par, st, shell = build(case)
-    ops_, storage, lazy_diff, stdout, err = Interpreter.run_code(parameter=par, storage=st, script=script, shell=shell)
+    ops_, storage, lazy_diff, stdout, err = Interpreter.run_code(parameter=par, storage=st, script=script, shell=shell, output_mode=case.get('out_mode', 'readable'))
     if err is not None:
         return {'error': (stdout[-1] if stdout else type(err).__name__)[:160], 'shell': shell}
     nst = len(case['st'])
@@ -542,7 +542,9 @@ def describe(case):
     return {'key_type': G.ty_text(case['t']), 'keys': [G.to_text(k) for k in case['keys']], 'value_type': case['vkind'],
             'parameter': case['par'], 'storage': [list(s) for s in case['st']],
             'on_chain': {str(p): kvs for p, kvs in case['chain'].items()},
-            'events': [_ev_tok(e) for e in case['ev']], 'stored_slots': case['store']}
+            'events': [_ev_tok(e) for e in case['ev']], 'stored_slots': case['store'],
+            **({'output_mode': case['out_mode']} if case.get('out_mode', 'readable') != 'readable' else {}),
+            **({'run_after': case['after']} if case.get('after') else {})}
 
 
 def short(case):
@@ -550,7 +552,9 @@ def short(case):
         f'#{s[1]}' if s[0] == 'id' else 'lit' + json.dumps(dict(s[1])) for s in case['st']]
     chain = {p: dict(kvs) for p, kvs in case['chain'].items() if kvs}
     return (f"{G.ty_text(case['t'])}->{case['vkind']} keys {[G.to_text(k) for k in case['keys']]} [{' '.join(inits)}] chain={chain}: "
-            f"{' '.join(_ev_tok(e) for e in case['ev'])} store {case['store']}")
+            f"{' '.join(_ev_tok(e) for e in case['ev'])} store {case['store']}"
+            + (f" output_mode={case['out_mode']}" if case.get('out_mode', 'readable') != 'readable' else '')
+            + (f" [in one process after a run over the same key texts typed {case['after']}]" if case.get('after') else ''))
 
 
 # ---------------------------------------------------------------- generation
@@ -587,11 +591,48 @@ def gen_events(rng, nkeys, n, slots0, vcodes, n_dup):
     return ev, nslots
 
 
-def random_case(rng, max_len):
-    t = rng.choice(KEY_TYPES) if rng.random() < 0.8 else None
-    while t is None or not G.inhabited(t):
-        t = G.gen_type(rng, rng.randrange(0, 3), allow_never=False)
-    keys = gen_keys(rng, t, rng.randrange(3, 7))
+TEXT_TYPES = ('address', 'key', 'key_hash', 'signature', 'chain_id')
+
+
+def has_text(t):
+    return t in TEXT_TYPES if isinstance(t, str) else any(has_text(x) for x in t[1:])
+
+
+def textify_t(t):
+    return ('string' if t in TEXT_TYPES else t) if isinstance(t, str) else (t[0],) + tuple(textify_t(x) for x in t[1:])
+
+
+def textify_v(v):
+    if v[0] in ('kh', 'addr', 'key', 'sig', 'cid'):
+        return ('str', G.to_micheline(G.normalise_value(v))['string'])
+    if v[0] in ('some', 'left', 'right'):
+        return (v[0], textify_v(v[1]))
+    if v[0] == 'pair':
+        return ('pair', textify_v(v[1]), textify_v(v[2]))
+    return v
+
+
+def text_twin(rng, case, max_len):
+    """another history over THE SAME key texts typed `string` (base58 texts are legal strings): packs, hashes and orders differently"""
+    t2 = textify_t(case['t'])
+    keys = []
+    for k in case['keys']:
+        k2 = G.normalise_value(textify_v(k))
+        if not any(G.tz_eq(k2, w) for w in keys):
+            keys.append(k2)
+    keys = sorted(keys, key=functools.cmp_to_key(G.tz_cmp))
+    if len(keys) < 2:
+        return None
+    return random_case(rng, max_len, t2, keys)
+
+
+def random_case(rng, max_len, t=None, keys=None):
+    if t is None:
+        t = rng.choice(KEY_TYPES) if rng.random() < 0.8 else None
+        while t is None or not G.inhabited(t):
+            t = G.gen_type(rng, rng.randrange(0, 3), allow_never=False)
+    if keys is None:
+        keys = gen_keys(rng, t, rng.randrange(3, 7))
     nkeys = len(keys)
     vkind = 'nat' if rng.random() < 0.45 else rng.choice(list(VALUE_KINDS))
     lits = VALUE_KINDS[vkind][1]
@@ -638,6 +679,9 @@ def random_case(rng, max_len):
     slots0 = (1 if par is not None else 0) + len(st)
     ev, nslots = gen_events(rng, nkeys, n, slots0, vcodes, n_dup)
     case = {'t': t, 'keys': keys, 'vkind': vkind, 'par': par, 'st': st, 'chain': chain, 'ev': ev, 'store': []}
+    r = rng.random()
+    if r < 0.25:                                        # the optional output mode of run_code / aggregate_lazy_diff(mode=…)
+        case['out_mode'] = 'optimized' if r < 0.17 else 'legacy_optimized'
     rt = roots(case)
     # stored slots: distinct, and never two descendants of the same on-chain id in the storage (both would `update` one id)
     for _ in range(40):
@@ -739,6 +783,55 @@ def check_packs(ctx, packs, model):
             ctx.mismatch('pack+key_hash', {'key_type': G.ty_text(t), 'key': G.to_text(k)}, f'{got} {got_hash}', model[i])
 
 
+def literal_universe_ok(case):
+    return len(case['keys']) >= 1
+
+
+def check_modes(ctx, universes):
+    """`aggregate_lazy_diff(lazy_diff, mode=…)` called directly (run_code always asks for the readable diff): a freshly allocated big map
+    holding every key of a universe, emitted in the three modes — the key hash does not depend on the rendering, the rendered key reads
+    back as the key"""
+    from pytezos.context.impl import ExecutionContext
+    from pytezos.michelson.forge import forge_script_expr
+    from pytezos.michelson.types.base import MichelsonType
+    reported = 0
+    for t, keys in universes:
+        try:
+            cls = MichelsonType.match({'prim': 'big_map', 'args': [G.ty_expr(t), NAT]})
+            kcls = MichelsonType.match(G.ty_expr(t))
+            lit = [{'prim': 'Elt', 'args': [G.to_micheline(k), {'int': str(i)}]} for i, k in enumerate(keys)]
+        except Exception:          # noqa: BLE001
+            continue
+        hashes = [expr_hash(k) for k in keys]
+        for mode in ('readable', 'optimized', 'legacy_optimized'):
+            ctx.case({'aggregate_lazy_diff': G.ty_text(t), 'keys': [G.to_text(k) for k in keys], 'mode': mode}, nontrivial=mode != 'readable')
+            ctx.count('direct_mode', mode)
+            try:
+                bm = cls.from_micheline_value(lit)
+                bm.attach_context(ExecutionContext())
+                out = []
+                bm.aggregate_lazy_diff(out, mode=mode)
+                ups = out[0]['diff']['updates']
+                seen = []
+                for u in ups:
+                    # the rendered key must denote the key the hash belongs to (compared through PACK: the optimized form of a
+                    # signature forgets its curve tag by design, so texts are not compared)
+                    rendered = forge_script_expr(kcls.from_micheline_value(u['key']).pack(legacy=True))
+                    i = hashes.index(rendered) if rendered in hashes else -1
+                    seen.append((i, u.get('value'), u.get('key_hash')))
+            except Exception as ex:      # noqa: BLE001
+                seen = f'raise {type(ex).__name__}: {ex}'[:160]
+            want = [(i, {'int': str(i)}, expr_hash(k)) for i, k in enumerate(keys)]
+            if seen != want and reported < 8:
+                reported += 1
+                j = next((j for j, (a, b) in enumerate(zip(seen, want)) if a != b), 0) if isinstance(seen, list) and len(seen) == len(want) else None
+                what = (f'key_hash of key #{j} {G.to_text(keys[j])} is {seen[j][2]}, the script-expression hash of its legacy PACK is {want[j][2]}'
+                        if j is not None and seen[j][:2] == want[j][:2] else f'updates {seen}, expected {want}')
+                ctx.violation(f'key_hash: aggregate_lazy_diff(mode={mode!r}) {G.ty_text(t)}'[:300],
+                              f'big_map {G.ty_text(t)} nat literal with keys {[G.to_text(k) for k in keys]}, aggregate_lazy_diff(mode={mode!r}): {what}',
+                              {'key_type': G.ty_text(t), 'keys': [G.to_text(k) for k in keys], 'mode': mode, 'observed': seen, 'expected': want})
+
+
 def run(ctx):
     status = extract.generate(PROP)
     # the typed-key theorems rest on the C03 mirror of __eq__ / __lt__: its tables are re-read from the source as well
@@ -751,7 +844,7 @@ def run(ctx):
     quick = ctx.tier == 'quick'
     max_len = 25 if quick else 200
     ctx.extra['rule'] = (
-        'one Interpreter.run_code call per case with a stub shell; key type from a list of 30 comparable types (nat, int, string, bytes, '
+        'one Interpreter.run_code call per case with a stub shell (output_mode readable, for a quarter of the cases optimized / legacy_optimized); a third of the cases whose key type contains address / key / key_hash / signature / chain_id has a twin history over the same key texts typed string, run in the same process just before or after; key type from a list of 30 comparable types (nat, int, string, bytes, '
         'timestamp, address, key_hash, key, pair, nested pairs, option, or, …) or random (nesting <= 2), universe of 3-6 near-equal keys '
         '(gen_c03.near); value type nat / string / bytes / bool / unit / option / list / set / map with code 0 = the falsy value; the big maps '
         'enter as storage literal (alloc), storage id (update) or parameter id (copy), one or two big maps in the storage, random on-chain '
@@ -772,8 +865,20 @@ def run(ctx):
     ]
     cases = regressions()
     n_random = 1800 if quick else 6000
-    for _ in range(n_random):
-        cases.append(random_case(ctx.rng, max_len if ctx.rng.random() < (0.4 if quick else 0.15) else 12))
+    n_twins = 0
+    for j in range(n_random):
+        c = random_case(ctx.rng, max_len if ctx.rng.random() < (0.4 if quick else 0.15) else 12,
+                        t=ctx.rng.choice(TEXT_TYPES + (('pair', 'address', 'nat'), ('or', 'key_hash', 'address'), ('pair', 'timestamp', 'key_hash'))) if j % 9 == 4 else None)
+        tw = text_twin(ctx.rng, c, 12) if has_text(c['t']) and j % 3 == 1 else None
+        if tw is None:
+            cases.append(c)
+            continue
+        # both orders: the process has already hashed / compared these texts under the other type
+        n_twins += 1
+        first, second = (c, tw) if n_twins % 2 else (tw, c)
+        second['after'] = G.ty_text(first['t'])
+        cases += [first, second]
+    ctx.extra['text_twin_pairs'] = n_twins
     n_ex = 0
     for c in exhaustive_cases(3 if quick else 5):
         cases.append(c)
@@ -790,6 +895,13 @@ def run(ctx):
     model_all = ctx.model(lines)
     model = None if model_all is None else model_all[:len(cases)]
     check_packs(ctx, packs, None if model_all is None else model_all[len(cases):])
+    universes, seen_u = [], set()
+    for c in cases[:len(cases) - n_ex]:
+        u = (c['t'], tuple(c['keys']))
+        if u not in seen_u and literal_universe_ok(c):
+            seen_u.add(u)
+            universes.append((c['t'], c['keys']))
+    check_modes(ctx, universes[:400 if quick else 4000])
     shrunk = 0
     for i, case in enumerate(cases):
         res = run_impl(case)
@@ -803,6 +915,8 @@ def run(ctx):
         ctx.count('layout', layout)
         ctx.count('key_type', fam)
         ctx.count('value_type', case['vkind'])
+        ctx.count('output_mode', case.get('out_mode', 'readable'))
+        ctx.count('after_text_twin', bool(case.get('after')))
         ctx.count('history_len', min(len(case['ev']) // 10 * 10, 200))
         ctx.count('dups', sum(1 for e in case['ev'] if e[0] == 'd'))
         ctx.count('stored_slot_is_duplicate', any(s >= n_init(case) for s in case['store']))
@@ -816,6 +930,8 @@ def run(ctx):
                 small = shrink(case)
                 shrunk += 1
                 what = oracle(small, run_impl(small))
+                if what is None:      # (a failure that needs the process history and is gone in the shrunk re-run)
+                    small, what = case, bad
                 ctx.violation(f'{topic}: {short(small)}'[:400], what, {'case': describe(small), 'what': what, 'from': describe(case)})
             else:
                 ctx.count('violations_not_shrunk', 1)
